@@ -334,11 +334,14 @@ pub fn check(s: &'static dyn Proto, c: &Case, st: &mut Stats, _k: &KnownFindings
         };
         let s1 = w.run(op, &spliced)?;
         st.eval(1);
-        if n >= consumed {
-            ensure_eq!(s1.all, a1.all, "{}: outputs differ although all {consumed} consumed bytes lie in the common prefix ({n})", OPS[op]);
+        // judge by the bytes that were actually handed out: a spliced tape whose consumed bytes
+        // happen to coincide (e.g. a split one byte before the end: 1 chance in 256) is the same tape
+        let same_bytes = s1.rng.all_bytes() == a1.rng.all_bytes();
+        if n >= consumed || same_bytes {
+            ensure_eq!(s1.all, a1.all, "{}: outputs differ although the {consumed} consumed bytes are identical (split at {n})", OPS[op]);
             st.label("split:after-all-draws");
         } else {
-            ensure!(s1.all != a1.all, "{}: outputs identical although the tapes differ from byte {n} of {consumed}", OPS[op]);
+            ensure!(s1.all != a1.all, "{}: outputs identical although the consumed tape bytes differ (split at byte {n} of {consumed})", OPS[op]);
             for (oa, os) in a1.outs.iter().zip(s1.outs.iter()) {
                 if oa.w == W::FakeMaskingKey {
                     // the masked response is a function of two draws (masking key and masking nonce)
@@ -349,8 +352,13 @@ pub fn check(s: &'static dyn Proto, c: &Case, st: &mut Stats, _k: &KnownFindings
                         ensure_eq!(oa.bytes, os.bytes, "{}: '{}' changed although its draw [{off},{}) lies in the common prefix {n}", OPS[op], oa.name, off + len);
                         st.label("split:value-in-prefix-equal");
                     } else if off >= n {
-                        ensure!(oa.bytes != os.bytes, "{}: '{}' unchanged although its draw [{off},{}) lies after the split {n}", OPS[op], oa.name, off + len);
-                        st.label("split:value-after-split-differs");
+                        let sb = s1.rng.all_bytes();
+                        let ab = a1.rng.all_bytes();
+                        let drawn_differs = sb.len() < off + len || sb[off..off + len] != ab[off..off + len];
+                        if drawn_differs {
+                            ensure!(oa.bytes != os.bytes, "{}: '{}' unchanged although its draw [{off},{}) lies after the split {n}", OPS[op], oa.name, off + len);
+                            st.label("split:value-after-split-differs");
+                        }
                     } else {
                         st.label("split:straddles-draw");
                     }
